@@ -77,3 +77,21 @@ func VerifC17Errors() {
 	vAssert(e2 != nil && len(r2) == 0, "backward: maxHeight < minHeight is an error")
 	vReach("end")
 }
+
+// VerifC17Structure: range and monotonicity of the kernel at EVERY output zoom, from the structure of the halving loop
+// alone (float arithmetic uninterpreted, comparisons exact): whatever the border values are, each step compares the
+// altitude with a border that does not depend on the altitude given the bits so far.  Any doubles (no NaN).
+func VerifC17Structure() {
+	zoom := vCase("zoom")
+	mx := vNondetFloat64("max")
+	mn := vNondetFloat64("min")
+	a1 := vNondetFloat64("a1")
+	a2 := vNondetFloat64("a2")
+	vAssume(a1 <= a2)
+	i1 := calcBitIndex(a1, zoom, mx, mn)
+	i2 := calcBitIndex(a2, zoom, mx, mn)
+	top := int64(1)<<uint(zoom) - 1
+	vAssert(0 <= i1 && i1 <= top && 0 <= i2 && i2 <= top, "the index is inside 0..2^zoom-1 at every zoom")
+	vAssert(i1 <= i2, "the index is monotone in the altitude at every zoom")
+	vReach("end")
+}
